@@ -240,22 +240,32 @@ def judge_result(spec, res, line, seq_id=None):
 
 # ------------------------------------------------------------ scenarios
 def scenario(chk, d, name, nfiles, kinds, nlines, distinct, seq=False,
-             first_line=None):
-    """ build files + searcher, run, return observations """
+             first_line=None, reuse=None, first_start=None,
+             seq_body_stored=True):
+    """ build files + searcher, run, return observations.  `reuse` = an
+    earlier scenario whose definition OBJECTS are used again (a definition
+    may serve any number of runs) """
     from searchkit import FileSearcher, SequenceSearchDef, SearchDef
     rng = chk.rng
-    specs = make_defs(rng, kinds)
     seqdef = None
     seq_specs = {}
-    if seq:
+    if reuse is not None:
+        specs, seqdef, seq_specs = (reuse['specs'], reuse['seqdef'],
+                                    reuse['seq_specs'])
+    else:
+        specs = make_defs(rng, kinds)
+    if seq and seqdef is None:
         seqdef = SequenceSearchDef(start=SearchDef(r'START (\S+)'),
-                                   body=SearchDef(r'BODY (\S+) (\S+)'),
+                                   body=SearchDef(
+                                       r'BODY (\S+) (\S+)',
+                                       store_result_contents=seq_body_stored),
                                    end=SearchDef(r'STOP (\S+)'), tag='seqT')
         for part, pat in (('start', r'START (\S+)'),
                           ('body', r'BODY (\S+) (\S+)'),
                           ('end', r'STOP (\S+)')):
             seq_specs[f"seqT-{part}"] = {
-                'tag': f"seqT-{part}", 'fields': None, 'store': True,
+                'tag': f"seqT-{part}", 'fields': None,
+                'store': seq_body_stored or part != 'body',
                 're': re.compile(pat), 'pattern': pat, 'kind': 'seq'}
     extra = [s['tag'] for s in specs]
     if seqdef is not None:
@@ -271,6 +281,8 @@ def scenario(chk, d, name, nfiles, kinds, nlines, distinct, seq=False,
                 lines[k:k] = [f"START {rng.choice(extra)}",
                               f"BODY {rng.choice(extra)} {seqdef.id}",
                               f"STOP {rng.choice(WORDS)}"]
+            if first_start is not None:
+                lines[0] = f"START {first_start}"
         with open(p, 'w', encoding='utf-8') as f:
             f.write("".join(x + "\n" for x in lines))
         paths.append(p)
@@ -291,7 +303,8 @@ def scenario(chk, d, name, nfiles, kinds, nlines, distinct, seq=False,
         signal.signal(signal.SIGALRM, old)
     return {'name': name, 'paths': paths, 'contents': contents, 'res': res,
             'specs': specs, 'all_specs': specs + list(seq_specs.values()),
-            'seqdef': seqdef, 'parallel': nfiles > 1}
+            'seqdef': seqdef, 'seq_specs': seq_specs,
+            'parallel': nfiles > 1}
 
 
 def line_of(sc, p, r):
@@ -516,10 +529,13 @@ def run(chk):
     all_kinds = list(KINDS)
     plans = []
 
-    def plan(nfiles, kinds, nlines, distinct, seq=False, first_line=None):
+    def plan(nfiles, kinds, nlines, distinct, seq=False, first_line=None,
+             group=None, first_start=None, seq_body_stored=True):
         plans.append({'nfiles': nfiles, 'kinds': kinds, 'nlines': nlines,
                       'distinct': distinct, 'seq': seq,
-                      'first_line': first_line})
+                      'first_line': first_line, 'group': group,
+                      'first_start': first_start,
+                      'seq_body_stored': seq_body_stored})
     reps = 1 if chk.quick else 5
     for _ in range(reps):
         # small, heavy duplication: single and multi file, every def kind
@@ -539,6 +555,21 @@ def run(chk):
         plan(3, ['nostore'], 20, 3)
         plan(1, ['leadopt', 'two'], 40, 3, first_line='H k=first')
         plan(3, ['leadopt', 'two'], 40, 3, first_line='H k=first')
+        # the SAME definition objects used in several runs, their tags /
+        # sequence ids landing on different store positions each time
+        g = f"g{_}"
+        plan(1, ['two', 'opt'], 30, 3, first_line='A x y', group=g)
+        plan(1, ['two', 'opt'], 30, 3, first_line='B k opt=z end t', group=g)
+        plan(3, ['two', 'opt'], 30, 3, first_line='B k end', group=g)
+        plan(1, ['two'], 30, 3, seq=True, first_start='zz', group=g + 's')
+        plan(1, ['two'], 30, 3, seq=True, first_start='seqT-start',
+             group=g + 's')
+        plan(3, ['two'], 30, 3, seq=True, first_start='seqT-start',
+             group=g + 's')
+        # a sequence part that does not store its contents still belongs
+        # to its sequence
+        plan(1, ['two'], 40, 3, seq=True, seq_body_stored=False)
+        plan(3, ['opt'], 40, 3, seq=True, seq_body_stored=False)
         # values equal to tags / sequence ids, sequences
         plan(1, ['two', 'typed'], 80, 5, seq=True)
         plan(3, ['opt', 'named'], 80, 5, seq=True)
@@ -550,11 +581,20 @@ def run(chk):
     coq_cases, wants = [], []
     type_differs = [0]
 
+    groups = {}
+
     def one(n, pl):
         nfiles, kinds, nlines = pl['nfiles'], pl['kinds'], pl['nlines']
         try:
             sc = scenario(chk, d, f"s{n}", nfiles, kinds, nlines,
-                          pl['distinct'], pl['seq'], pl['first_line'])
+                          pl['distinct'], pl['seq'], pl['first_line'],
+                          reuse=groups.get(pl['group']),
+                          first_start=pl['first_start'],
+                          seq_body_stored=pl['seq_body_stored'])
+            if pl['group'] is not None:
+                if pl['group'] in groups:
+                    chk.dist('runs-reusing-definition-objects')
+                groups.setdefault(pl['group'], sc)
         except Exception as exc:  # pylint: disable=broad-except
             chk.violation(
                 f"c05-run-raised {type(exc).__name__}",
